@@ -7,8 +7,9 @@
   Table part (`Gozod.Gen.LockOrder.table`, regenerated from every non-test file of the library): with callbacks
   that take no library lock every locking function keeps the discipline (`lockorder_disciplined`), for the rank
   computed from the table's own acquired-while-holding relation; since /repo 1703379 no code the library does not
-  control runs under a lock (`cb_under_lock_sites` = []), so the discipline holds whatever callbacks do
-  (`lockorder_disciplined_any_callback`).
+  control runs under a lock ; round 4b counts `once.Do` as a lock, so the lazy getter is the one callback site under a lock
+  (`cb_under_lock_sites`), callbacks that take no Once keep the discipline (`lockorder_disciplined_callbacks_partial`),
+  a getter re-entering `once.Do` does not (`getter_reenter_undisciplined`, `getter_reenter_stuck`: out of scope, see there).
   Witness about the legacy `Registry.Range` (callback under the read lock): a callback that calls back into the
   registry (`Get`, as every chaining method does for `GlobalRegistry`) breaks the discipline and the model thread
   is stuck (`range_reenter_undisciplined`, `range_reenter_stuck`).
@@ -190,13 +191,58 @@ example : (mutexes Gen.LockOrder.table).length ≥ 3 ∧ Gen.LockOrder.table.len
 /-- no lock is ever acquired while another (or the same) lock is held: the acquired-while-holding relation is empty -/
 theorem lockorder_no_nesting : edges Gen.LockOrder.table = [] := by decide +kernel
 
-/-- the only place where the library runs code it does not control while holding a lock -/
-theorem cb_under_lock_sites : cbUnderLock Gen.LockOrder.table = [] := by decide +kernel
+/-- the sync.Once objects of the table (their `Do` is a lock held for the length of the function it runs) -/
+def onceLocks : List String := ["types.ZodLazyInternals.once"]
 
-/-- whatever a callback does — here: every locking function of the library in turn — the discipline holds, because no
-    callback runs under a lock any more -/
-theorem lockorder_disciplined_any_callback :
-    disciplined Gen.LockOrder.table (Gen.LockOrder.table.map (fun f => Ev.call f.name)) = true := by decide +kernel
+/-- **cb_under_lock_sites**: the places where the library runs code it does not control while holding a lock — since /repo
+    1703379 no mutex is held around a callback; what remains is the lazy schema's getter, which `resolveInner` runs inside
+    `once.Do` (the Once counted as a lock: round 4b). -/
+theorem cb_under_lock_sites : cbUnderLock Gen.LockOrder.table = [("types.ZodLazy.resolveInner", "Getter")] := by decide +kernel
+
+/-- the full statement: whatever a callback does — every locking function of the library in turn — the discipline holds -/
+def lockorder_disciplined_any_callback_full : Prop :=
+  ∀ cbBody : List Ev, (∀ e ∈ cbBody, ∃ f ∈ Gen.LockOrder.table, e = Ev.call f.name) →
+    disciplinedCb Gen.LockOrder.table cbBody = true
+
+/-- does the function call back? -/
+def callsBack (f : Fn) : Bool := f.evs.any (fun e => match e with | .cb _ => true | _ => false)
+
+/-- what a callback may do: call every locking function of the library that takes no sync.Once and does not itself call
+    back (a callback that starts another `Range` with a callback nests without bound; the model inlines) -/
+def callbackSafe : List Ev :=
+  (Gen.LockOrder.table.filter (fun f => !takesAny onceLocks f && !callsBack f)).map (fun f => Ev.call f.name)
+
+/-- **lockorder_disciplined_callbacks_partial**: callbacks — the Range callback (outside the lock) and the lazy getter
+    (inside `once.Do`) — that call any of the library's locking functions except those that go through a lazy schema's
+    `once.Do` (`callbackSafe`: the registry, the locale table, the regex caches — what chaining methods, Describe/Meta and
+    format checks use) keep the discipline, for the rank computed with the callbacks' acquisitions. -/
+theorem lockorder_disciplined_callbacks_partial : disciplinedCb Gen.LockOrder.table callbackSafe = true := by decide +kernel
+
+example : callbackSafe.length ≥ 8 := by decide +kernel
+
+/-- the rows of the regenerated table the witness is about (a sub-table: the kernel evaluates the unbounded nesting of the
+    re-entrant getter until the fuel is gone, which is only affordable over a small table) -/
+def getterTable : List Fn :=
+  [⟨"types.ZodLazy.resolveInner", [.acq "types.ZodLazyInternals.once" true, .cb "Getter", .rel "types.ZodLazyInternals.once"]⟩]
+
+theorem getterTable_in_table : ∀ f ∈ getterTable, f ∈ Gen.LockOrder.table := by decide +kernel
+
+/-- **Witness**: a getter that resolves a lazy schema (parses with the schema being resolved, or — the Once being one lock
+    per TYPE in this table — with any other lazy schema) re-enters `once.Do`: the discipline is broken, so the full
+    statement is false for such callbacks.  Decided OUT of the property's scope: `sync.Once` documents that a re-entrant
+    `Do` deadlocks, and a getter that parses with the schema it is defining does not terminate without the Once either
+    (resolveInner → getter → Parse → resolveInner …); the usual recursive definition — the getter DERIVES from or refers
+    to the lazy schema — takes no Once (`cloneState` loads the cache atomically). -/
+theorem getter_reenter_undisciplined :
+    disciplinedCb getterTable [.call "types.ZodLazy.resolveInner"] = false := by decide +kernel
+
+/-- … and the model thread is stuck inside the getter -/
+theorem getter_reenter_stuck :
+    let cbBody := [Ev.call "types.ZodLazy.resolveInner"]
+    let p := [PEv.acq 0, PEv.acq 0]   -- what the thread runs first: Do, and inside it the getter's Do on the same Once
+    let t1 := stepT ⟨[], p⟩
+    disciplinedCb getterTable cbBody = false ∧ enabled [⟨[], p⟩] ⟨[], p⟩ = true ∧ t1.rest ≠ [] ∧ enabled [t1] t1 = false := by
+  decide +kernel
 
 /-- `Registry.Range` before `fix: Range calls back outside the lock` -/
 def legacyTable : List Fn := [
